@@ -127,9 +127,12 @@ CHECKS = {
              "to the interpreter by rebuilding the frame tree of 90 real runs from a plain recorder's log and comparing model logs with the handler / "
              "third-party logs observed under pyccolo; the oracle also compares program results, exception call chains and sys.gettrace() afterwards, "
              "including third-party functions installed mid-run by user code and histories of sys.settrace(A) / sys.settrace(B) / sys.settrace(None) calls made by the "
-             "program between its statements (logs of A and B and sys.gettrace() afterwards equal the run without pyccolo).",
+             "program between its statements, also inside frames of a file the tracer does not accept (logs of A and B and sys.gettrace() afterwards equal the run without pyccolo). "
+             "C09_histories (model/SysHist.v: plain machine with a mutable global trace function vs pyccolo machine): for every family of third-party functions, subscription, run with "
+             "sys.settrace calls anywhere and initial function, the function in place afterwards, the third-party log and the handler log are the plain machine's; stated over flags "
+             "regenerated from tracer.py (gen_syshist.py); C09_histories_refuted keeps the two repaired defects as witnesses; every real history is replayed on the model.",
         note="Trusted: Coq kernel + vm_compute; the transcription of trace_trampoline (validated by the correspondence itself); hand transcription of "
-             "_sys_tracer/_make_composed_tracer; harness. Mid-run installation / uninstallation histories and program results are decided by the oracle, not by a theorem; handlers are observing.",
+             "_sys_tracer/_make_composed_tracer; harness. Program results are decided by the oracle, not by a theorem; handlers are observing; translator gen_syshist.py.",
         ref="DESIGN.md section 7 C09"),
     "C10": dict(
         technique="Coq-verified erasure certificate (guard branches must agree) + theorem characterising the guard rule + runs under guard schedules",
